@@ -116,6 +116,7 @@ func loadRepo(repo, tier, goos, goarch string) (*Ctx, error) {
 		c.SSA[sp.Pkg.Path()] = sp
 	}
 	c.AllFuncs = ssautil.AllFunctions(prog)
+	c.fillCanonicalFieldNames()
 	return c, nil
 }
 
